@@ -39,8 +39,25 @@ const (
 	respLen       = 1 + 8 + 8 + 8
 	maxBatchBytes = 40 << 10
 	retireAfter   = 128 << 20 // a server that allocated this much in one decode is replaced
-	serverAS      = 5 << 30   // address-space limit of a decode server
+	serverHeadroom = 1 << 30  // address space a decode server may add to what it starts with
 )
+
+// selfVMSize is the mapped address space of this process in bytes (0 if unknown).
+func selfVMSize() uint64 {
+	b, err := os.ReadFile("/proc/self/statm")
+	if err != nil {
+		return 0
+	}
+	f := strings.Fields(string(b))
+	if len(f) < 1 {
+		return 0
+	}
+	pages, err := strconv.ParseUint(f[0], 10, 64)
+	if err != nil {
+		return 0
+	}
+	return pages * uint64(os.Getpagesize())
+}
 
 func selfCPU() time.Duration {
 	var ru syscall.Rusage
@@ -66,14 +83,15 @@ func measuredDecode(d *decoder, b []byte) measure {
 
 func serverMain() {
 	debug.SetMaxStack(512 << 20)
-	// Address-space limit of the decode server: what the driver set for the worker, but at
-	// most serverAS. One 2^31-byte request still succeeds (and is measured by the allocation
-	// meter); a second one on top of it fails as "out of memory" before gigabytes are touched,
-	// which keeps 24 concurrent servers from exhausting the machine on a tree that copies
-	// hostile-length buffers.
+	// Address-space limit of the decode server: what the process has mapped at start plus
+	// serverHeadroom (never more than the limit the driver put on the worker). A request of
+	// hundreds of megabytes still succeeds and is measured by the allocation meter; a
+	// 2^31-byte request, or a second giant block (a copy of the first), fails as "out of
+	// memory" before gigabytes are touched. That keeps 24 concurrent servers from exhausting
+	// the machine on a tree that allocates and copies hostile-length buffers.
 	var rl syscall.Rlimit
-	if syscall.Getrlimit(syscall.RLIMIT_AS, &rl) == nil && rl.Cur > serverAS {
-		rl.Cur = serverAS
+	if vm := selfVMSize(); vm > 0 && syscall.Getrlimit(syscall.RLIMIT_AS, &rl) == nil && rl.Cur > vm+serverHeadroom {
+		rl.Cur = vm + serverHeadroom
 		syscall.Setrlimit(syscall.RLIMIT_AS, &rl)
 	}
 	br := bufio.NewReaderSize(os.Stdin, 1<<17)
